@@ -47,14 +47,21 @@ def _vrefs(lo, hi):
     return st.lists(_vref(), min_size=lo, max_size=hi)
 
 
+HDR_KINDS = {
+    "canon": ["const"] * 9 + ["dyn", "mixed", "tri"],
+    "both": ["const"] * 7 + ["dyn", "mixed", "tri"],
+    "reuse": ["const"] * 3 + ["dyn", "mixed", "tri"],
+}
+UBS = [0, 1, 2, 3, 3, 4, 5, 5, 6, 6, 7, 7, 8, 8, 9, 9, 10, 12, -1, -3]
+
+
 @st.composite
 def _hdr(draw, flavour):
     """Loop header. 'canon' flavour is constant heavy (what the canonicalisation patterns look at)."""
-    kinds = ["const"] * (6 if flavour == "canon" else 3) + ["dyn", "mixed", "tri"]
-    k = draw(st.sampled_from(kinds))
+    k = draw(st.sampled_from(HDR_KINDS[flavour]))
     step_c = draw(st.sampled_from([1, 1, 1, 2, 2, 3, 4, 5]))
-    ub_c = draw(st.sampled_from([0, 1, 2, 3, 3, 4, 5, 6, 7, 8, 9, 10, 12, -1, -3]))
-    lb_c = draw(st.sampled_from([0, 0, 0, 0, 0, 0, 1, 2, 3]))
+    ub_c = draw(st.sampled_from(UBS))
+    lb_c = draw(st.sampled_from([0] * 8 + [1, 2, 3]))
     if k == "const":
         return dict(lb=["c", lb_c], ub=["c", ub_c], step=["c", step_c])
     if k == "dyn":
@@ -92,9 +99,9 @@ def _offspec(draw):
 WEIGHTS = {
     # weights of the non-control statement kinds per flavour ("tile" = subview + alloc sized by its dims + use, the shape the
     # memory-space passes leave behind for reuse-memref-allocs)
-    "canon": dict(mark=8, call=2, val=1, pure=3, const=1, dim=0, amin=0, alloc=1, subview=0, use=1, tile=0),
-    "reuse": dict(mark=3, call=1, val=1, pure=2, const=2, dim=3, amin=2, alloc=5, subview=3, use=5, tile=5),
-    "both": dict(mark=4, call=1, val=1, pure=2, const=1, dim=2, amin=1, alloc=3, subview=2, use=4, tile=4),
+    "canon": dict(mark=8, call=2, val=1, pure=3, const=1, dim=0, amin=0, alloc=1, subview=0, use=1, tile=0, pingpong=0),
+    "reuse": dict(mark=3, call=1, val=1, pure=2, const=2, dim=3, amin=2, alloc=5, subview=3, use=5, tile=5, pingpong=1),
+    "both": dict(mark=4, call=1, val=1, pure=2, const=1, dim=2, amin=1, alloc=3, subview=2, use=4, tile=4, pingpong=1),
 }
 OBSERVABLE = ("mark", "call", "val", "use", "for", "if")
 
@@ -119,6 +126,12 @@ def _simple(draw, kinds):
         return [["subview", draw(_mref()), [[draw(_offspec()), draw(_sizespec())] for _ in range(2)]]]
     if k == "use":
         return [["use", draw(st.lists(_mref(), min_size=1, max_size=2)), draw(_vrefs(0, 2))]]
+    if k == "pingpong":
+        # a buffer per iteration handed to the next iteration through an iter_arg (a use spans iterations)
+        sizes = [["s", draw(st.sampled_from([2, 4]))] for _ in range(draw(st.integers(1, 2)))]
+        body = [["alloc", sizes], ["use", [-2, -1], draw(_vrefs(0, 1))]]
+        hdr = dict(lb=["c", 0], ub=["c", draw(st.integers(0, 4))], step=["c", 1])
+        return [["alloc", sizes], ["for", hdr, body, [["m", -1, draw(st.sampled_from([-1, -1, -2]))]]]]
     # tile: view of some memref, a buffer sized by the view's dimensions (or a static / other size), a use of both
     sv = ["subview", draw(_mref()), [[draw(_offspec()), draw(_sizespec())] for _ in range(2)]]
     sizes = [draw(st.sampled_from([["d", -1, j]] * 4 + [["s", 4], ["v", draw(_vref())]])) for j in range(draw(st.integers(1, 2)))]
@@ -135,13 +148,16 @@ def _block(flavour, depth, budget):
     def block(draw, depth=depth, budget=budget, top=False, inloop=False):
         nfor = draw(st.sampled_from([1, 1, 1, 2] if top else [0, 0, 1, 1, 1, 2])) if depth > 0 else 0
         nif = draw(st.sampled_from([0] * 7 + [1])) if depth > 0 else 0
-        nother = draw(st.integers(0 if nfor + nif else 1, max(1, min(4, budget))))
+        if nfor and inloop and flavour != "reuse":
+            nother = draw(st.sampled_from([0, 0, 0, 1, 1, 2, 3]))  # perfect and nearly perfect nests
+        else:
+            nother = draw(st.integers(0 if nfor + nif else 1, max(1, min(4, budget))))
         groups = [draw(_simple(kinds)) for _ in range(nother)]
         for _ in range(nfor):
             hdr = draw(_hdr(flavour))
             body = draw(block(depth=depth - 1, budget=max(1, budget // 2), inloop=True))
             carried = []
-            c = draw(st.sampled_from(["none"] * 17 + ["i", "i", "m"]))
+            c = draw(st.sampled_from(["none"] * 30 + ["i", "i", "m"]))
             if c == "i":
                 carried = [["i", draw(_vref()), draw(_vref())]]
             elif c == "m":
